@@ -468,7 +468,7 @@ func (p *Prop[C]) One(t *testing.T, c C) bool {
 	r.mu.Unlock()
 	if err := p.eval(c); err != nil {
 		p.recordFailure(c, err)
-		t.Errorf("%s/%s: %v", p.ID, p.Name, err)
+		failLater(t, fmt.Sprintf("%s/%s: %v", p.ID, p.Name, err))
 		return false
 	}
 	return true
@@ -511,7 +511,7 @@ func checkKnown(t *testing.T, id string) {
 					r.mu.Lock()
 					r.Failures = append(r.Failures, failure{Prop: "known:" + k.ID, Message: err.Error(), Replay: filepath.Join(cfg.Root, k.Reproducer), Signature: f.Sig})
 					r.mu.Unlock()
-					t.Errorf("known finding %s now fails with another signature: %v", k.ID, err)
+					failLater(t, fmt.Sprintf("known finding %s now fails with another signature: %v", k.ID, err))
 					continue
 				}
 				r.mu.Lock()
@@ -525,7 +525,7 @@ func checkKnown(t *testing.T, id string) {
 				r.mu.Lock()
 				r.Failures = append(r.Failures, failure{Prop: "fixed:" + k.ID, Message: err.Error(), Replay: filepath.Join(cfg.Root, k.Reproducer)})
 				r.mu.Unlock()
-				t.Errorf("fixed finding %s has returned: %v", k.ID, err)
+				failLater(t, fmt.Sprintf("fixed finding %s has returned: %v", k.ID, err))
 			} else {
 				r.Class("fixed_regressions_replayed")
 			}
@@ -538,4 +538,12 @@ func knownPath() string {
 		return v
 	}
 	return filepath.Join(cfg.Root, "known_findings.json")
+}
+
+// failLater marks the test as failed when it ends. rapid refuses to run a property on a
+// *testing.T that has already failed, so a violation found by an explicit case (One, checkKnown)
+// must not fail t before the remaining properties of the same TestCxx have run.
+func failLater(t *testing.T, msg string) {
+	t.Helper()
+	t.Cleanup(func() { t.Errorf("%s", msg) })
 }
